@@ -275,7 +275,8 @@ package consensus
 // Re-execution starts only for a block that passed every pre-execution check, and the block is returned only if the locally sealed
 // block has the same header hash.
 //@ func (*DPoVP).VerifyAndSeal
-//@   props C02
+//@   props C02 C19
+//@   requires held(dp.chainLock)
 //@   requires dp != nil && dp.validator != nil && dp.processor != nil && dp.assembler != nil && block != nil && block.Header != nil
 //@   requires wfTxs(block.Txs) && params.MinGasPrice != nil && dp.validator.dm == dp.dm
 //@   requires deputynode.wfManager(dp.dm) && deputynode.cfgOK() && dp.dm.DeputyCount <= 65536 && dp.validator.mineTimeout > 0 && dp.validator.mineTimeout <= 1<<32
@@ -303,12 +304,14 @@ package consensus
 //@ func (*Confirmer).TryConfirm   trusted
 //@   modifies allbut(DPoVP, params, "chainWrites")
 //@ func (*DPoVP).saveNewBlock   trusted
+//@   requires held(dp.chainLock)
 //@   modifies all
 //@   ensures gh("chainWrites", 0) == old(gh("chainWrites", 0)) + 1
 //@   ensures result != ErrVerifyBlockFailed && result != ErrIgnoreBlock
 
 //@ func (*DPoVP).InsertBlock
-//@   props C02
+//@   props C02 C19
+//@   requires !held(dp.chainLock)
 //@   requires dp != nil && dp.validator != nil && dp.processor != nil && dp.assembler != nil && dp.confirmer != nil && rawBlock != nil && rawBlock.Header != nil
 //@   requires wfTxs(rawBlock.Txs) && params.MinGasPrice != nil && dp.validator.dm == dp.dm
 //@   requires deputynode.wfManager(dp.dm) && deputynode.cfgOK() && dp.dm.DeputyCount <= 65536 && dp.validator.mineTimeout > 0 && dp.validator.mineTimeout <= 1<<32
@@ -365,3 +368,29 @@ package consensus
 //@   modifies sigCache.Hash, sigCache.Sig, c.lastSig
 //@   ensures !held(c.lastSigLock) && !held(sigCacheLock) && wfSigCache()
 //@   ensures result1 == nil && block.Hash() != common.Hash{} ==> content(result0) == crypto.sigOf(content(block.Hash()), deputynode.GetSelfNodeKey())
+
+// C19, the engine's chain lock: InsertBlock and InsertConfirms (and MineBlock, not under contract: its pool calls need the pool's
+// representation invariant across assumed mining code) serialise on DPoVP.chainLock; everything that reads or
+// moves the chain's current/stable pointers, the fork manager and the stable manager is reached only with it held and it is
+// released on every path.  (The helpers themselves are assumed: they are entered with the lock and keep it.)
+//@ func (*DPoVP).UpdateStable   trusted
+//@   requires held(dp.chainLock)
+//@   modifies all
+//@ func (*DPoVP).insertConfirms   trusted
+//@   requires held(dp.chainLock)
+//@   modifies all
+//@ func (*DPoVP).onCurrentChanged   trusted
+//@   requires held(dp.chainLock)
+//@   modifies all
+//@ func (*DPoVP).onStableChanged   trusted
+//@   requires held(dp.chainLock)
+//@   modifies all
+//@ func (*DPoVP).logCurrentChange   trusted
+//@   modifies nothing
+//@ func (*ForkManager).UpdateForkForConfirm   trusted
+//@   modifies all
+//@ func (*DPoVP).InsertConfirms
+//@   props C19
+//@   requires dp != nil && !held(dp.chainLock)
+//@   assert @call UpdateForkForConfirm#0: held(dp.chainLock)
+//@   ensures !held(dp.chainLock)
